@@ -124,6 +124,10 @@ class PROP(Prop):
                         # the late reply is what the next call reads first
                         exp[1] = "late"; exp[2] = "any"
                     sync_cases.append(Case("SYNC %s 300 %d %s" % (proto, slave, " ; ".join(ops)), {"proto": proto, "sync": True, "exp": exp, "scen": scen}))
+                    # the same with the timeout installed after connecting (set_timeout), and switched off again at the end
+                    if rep == 0:
+                        ops2 = ["timeout 300"] + ops + ["timeout -"]
+                        sync_cases.append(Case("SYNC %s - %d %s" % (proto, slave, " ; ".join(ops2)), {"proto": proto, "sync": True, "exp": ["ok t=300"] + exp + ["ok t=-"], "scen": ["set"] + scen + ["reset"]}))
         # spread the slow live cases evenly over the shards
         step = max(1, len(cs) // (len(sync_cases) + 1))
         for i, sc in enumerate(sync_cases):
